@@ -11,6 +11,7 @@ import (
 	"verif/explore"
 	"verif/hapi"
 	"verif/vrt"
+	"verif/wire"
 	"verif/vrt/vos"
 )
 
@@ -114,17 +115,80 @@ func ExecSeq(spec *SeqSpec, hist []SeqOp) (*SeqRun, string) {
 	var engErr string
 	rt := vrt.Run(vrt.Options{MaxPoints: 200_000_000}, func() {
 		node := hapi.Factories["n0"](spec.Cfg)
-		if err := node.StartEngine(); err != nil {
-			engErr = "StartEngine: " + err.Error()
-			return
-		}
 		nc := spec.Clients
 		if nc == 0 {
 			nc = 2
 		}
 		clients := make([]hapi.Client, nc)
-		for i := range clients {
-			clients[i] = node.NewMemClient(clientName(i))
+		var conns []*wire.Conn
+		if spec.Full {
+			// full node: real listener and one real binary connection per client (the server's own
+			// per-connection protocol objects, command pools and reply buffers are in the loop)
+			if spec.Restart {
+				engErr = "Full and Restart are not combined"
+				return
+			}
+			if err := node.Start(); err != nil {
+				engErr = "Start: " + err.Error()
+				return
+			}
+			vrt.AdvanceTo(1300 * ms)
+			for i := 0; i < nc; i++ {
+				cn, err := wire.Dial(nodeAddr(0))
+				if err != nil {
+					engErr = "dial: " + err.Error()
+					return
+				}
+				conns = append(conns, cn)
+			}
+			vrt.Quiesce()
+		} else {
+			if err := node.StartEngine(); err != nil {
+				engErr = "StartEngine: " + err.Error()
+				return
+			}
+			for i := range clients {
+				clients[i] = node.NewMemClient(clientName(i))
+			}
+		}
+		var wireEvents []hapi.Event
+		collect := func() {
+			for i, cn := range conns {
+				cn.Pump()
+				for _, r := range cn.TakeBin() {
+					ev := hapi.Event{Seq: len(wireEvents), T: vrt.Elapsed(), Client: clientName(i), Cmd: r.Type, Req: r.Req[0], ReqFull: r.Req, Result: r.Result}
+					if r.Lock != nil {
+						ev.LCount, ev.LRCount, ev.DB, ev.Key, ev.LockId = r.Lock.Lcount, r.Lock.Lrcount, r.Lock.DbId, r.Lock.LockKey, r.Lock.LockId
+					}
+					if r.Data != nil {
+						ev.Data = r.Data
+					}
+					wireEvents = append(wireEvents, ev)
+				}
+			}
+		}
+		do := func(i int, cmd hapi.Cmd) {
+			if spec.Full {
+				_ = conns[i].Send(wire.BinFrame(cmd))
+				return
+			}
+			clients[i].Do(cmd.Build())
+			vrt.Quiesce()
+		}
+		events := func() []hapi.Event {
+			if spec.Full {
+				collect()
+				return wireEvents
+			}
+			return node.Events()
+		}
+		clearEvents := func() {
+			if spec.Full {
+				collect()
+				wireEvents = nil
+				return
+			}
+			node.ClearEvents()
 		}
 		if spec.MonC01 {
 			er := &EngRun{}
@@ -133,14 +197,13 @@ func ExecSeq(spec *SeqSpec, hist []SeqOp) (*SeqRun, string) {
 		}
 		vrt.AdvanceTo(1300 * ms)
 		step := func(o SeqOp, snap bool) SeqStep {
-			node.ClearEvents()
+			clearEvents()
 			if o.Cmd != nil {
-				clients[o.Client].Do(o.Cmd.Build())
-				vrt.Quiesce()
+				do(o.Client, *o.Cmd)
 			} else {
 				vrt.AdvanceTo(vrt.Elapsed() + o.Tick)
 			}
-			st := SeqStep{Op: o, Events: append([]hapi.Event{}, node.Events()...), T: vrt.Elapsed()}
+			st := SeqStep{Op: o, Events: append([]hapi.Event{}, events()...), T: vrt.Elapsed()}
 			if snap {
 				st.Snap = node.Snapshot()
 			}
@@ -206,15 +269,14 @@ func ExecSeq(spec *SeqSpec, hist []SeqOp) (*SeqRun, string) {
 			return
 		}
 		if spec.Drain {
-			node.ClearEvents()
+			clearEvents()
 			last := run.Steps[len(run.Steps)-1].Snap
 			r := byte(200)
 			for _, k := range last.Keys {
 				for _, h := range k.Holds {
 					u := hapi.Cmd{Type: 2, Req: r, DB: k.DB, Key: k.Key[15], Id: h.LockId[15]}
 					r++
-					clients[0].Do(u.Build())
-					vrt.Quiesce()
+					do(0, u)
 				}
 			}
 			d := spec.DrainFor
@@ -223,7 +285,7 @@ func ExecSeq(spec *SeqSpec, hist []SeqOp) (*SeqRun, string) {
 			}
 			vrt.AdvanceTo(vrt.Elapsed() + d)
 			run.Drained = node.Snapshot()
-			run.DrainEv = append([]hapi.Event{}, node.Events()...)
+			run.DrainEv = append([]hapi.Event{}, events()...)
 		}
 	})
 	run.RT = rt
